@@ -256,7 +256,7 @@ func c06History(c *vc.Ctx, idx int) {
 		if blk%9 == 5 && len(lh.post.Bitcoin.EthTxQueue.Deposits)+len(lh.post.Locking.EthTxQueue.Unlocks)+len(lh.post.Locking.EthTxQueue.Rewards) > 0 {
 			forcedNow = true
 			forced++
-			variant := r.Intn(3)
+			variant := r.Intn(5)
 			lh.cfg.StepOpts = func(so *world.StepOpts) {
 				so.NoProcess = true
 				so.Mutate = func(txs [][]byte) [][]byte {
@@ -278,6 +278,22 @@ func c06History(c *vc.Ctx, idx int) {
 						t0 := append([]byte(nil), q.Transactions[0]...)
 						t0[len(t0)-1] ^= 1
 						q.Transactions = append([][]byte{t0}, q.Transactions[1:]...)
+					case 3: // withhold the last one
+						q.Transactions = append(append([][]byte{}, q.Transactions[:n-1]...), q.Transactions[n:]...)
+						q.ExtraData = append([]byte{byte(n - 1)}, q.ExtraData[1:]...)
+					case 4: // withhold every hand-over of the locking module, keep the bridge ones (count adjusted)
+						var keep [][]byte
+						for i := 0; i < n; i++ {
+							if st, err := world.DecodeSysTx(q.Transactions[i]); err == nil && st.Module == uint8(goattypes.LockingModule) {
+								continue
+							}
+							keep = append(keep, q.Transactions[i])
+						}
+						if len(keep) == n {
+							keep = keep[:n-1]
+						}
+						q.ExtraData = append([]byte{byte(len(keep))}, q.ExtraData[1:]...)
+						q.Transactions = append(keep, q.Transactions[n:]...)
 					}
 					world.Rehash(q)
 					tx, err := lh.ch.BlockTx(0, lh.ch.Height+1, lh.ch.W.ValAddrStr(0), q)
@@ -437,7 +453,7 @@ func c06History(c *vc.Ctx, idx int) {
 func init() {
 	vc.Register(&vc.Check{
 		ID: "C06", Title: "Consensus-to-execution hand-over is exactly-once, ordered and gap-free", Level: "exploration",
-		Rule: "one case = one history (80/200 blocks + drain) that fills every queue at once: Bitcoin block hashes voted up to 16 at a time (and hostile batches that start at the tip, after a gap, rewrite an old height, carry 17 hashes), deposits (bursts above the cap of 8), withdrawals paid and refunded (cap 8 shared), reward claims and matured unlocks (bursts above 16), with failing relayer messages, 1..3 abandoned proposal rounds (prepared, sometimes processed, never finalised) before every 4th block, a node restart every 11th, and every 9th block a payload whose system transactions were dropped/duplicated/altered forced into FinalizeBlock; " +
+		Rule: "one case = one history (80/200 blocks + drain) that fills every queue at once: Bitcoin block hashes voted up to 16 at a time (and hostile batches that start at the tip, after a gap, rewrite an old height, carry 17 hashes), deposits (bursts above the cap of 8), withdrawals paid and refunded (cap 8 shared), reward claims and matured unlocks (bursts above 16), with failing relayer messages, 1..3 abandoned proposal rounds (prepared, sometimes processed, never finalised) before every 4th block, a node restart every 11th, and every 9th block a payload whose system transactions were dropped/duplicated/altered/withheld (the last one, or every locking hand-over) forced into FinalizeBlock; " +
 			"owed log = generator ground truth at acceptance time; delivered log = leading system txs of finalised payloads whose block message succeeded; checker: per kind delivered is exactly the prefix of owed (once, FIFO, nothing invented), caps 1/8/8/16/16, consecutive nonces per module from 0, in-block layout, tampered payloads fail and consume nothing, abandoned rounds change no queue or nonce, voted tip = accepted batches and no voted hash is rewritten, and after a drain phase delivered = owed. Non-trivial = a finalised payload with system txs; distinct = per-kind counts in the block.",
 		Assume: []string{"'never dropped' is judged as bounded progress (drain of backlog/8 + remaining heights + 6 blocks)", "unlocks are owed from the moment they enter the delivery queue (C15 judges when they may)"},
 		Cases:  func(tier string) int { return map[string]int{"quick": 12, "thorough": 150}[tier] },
